@@ -259,6 +259,10 @@ class CtlLock:
         self.release()
 
 
+class WindowMismatch(Exception):
+    """the suppression window a parameter got is not the one its settings ask for"""
+
+
 class RConn:
     """fake connection: records (sender thread, inside the module's updateLock?) with every message"""
 
@@ -458,7 +462,8 @@ class World:
             got = self.mobj[p].parameters[p].omit_unchanged_within
             want = NEVER if omit[p] == NEVER else omit[p] * self.unit
             if got != want:
-                raise MachineryError(f'shape does not realise omit {omit} for {p}: {got} ({shape})')
+                raise WindowMismatch(f'{p}: update_unchanged / omit_unchanged_within give a window of {got!r}, not {want!r} '
+                                     f'(how: {how.get(p)}, parameter setting {dict((q[0], q[3]) for q in specs).get(p)!r})')
         # alpha tables
         self.canon = {}
         self.avail = {p: sorted(self.cat[self.dts[p]][1]) for p in self.params}
@@ -620,7 +625,7 @@ class World:
     def collect(self, only_thread=None):
         """new messages per connection and parameter (decoded), fold them into the client-side replay"""
         out = {}
-        unlocked = 0
+        unlocked = stray = 0
         for c, conn in self.conns.items():
             per = {p: [] for p in self.params}
             msgs = conn.msgs[self.taken[c]:]
@@ -628,18 +633,21 @@ class World:
             for msg, th, held in msgs:
                 if msg[0] in ('update', 'error_update'):
                     p, view = self.decode(msg)
-                    per.setdefault(p, []).append(view)
+                    if p not in per or p in self.hidden:
+                        stray += 1              # a message for something that is no exported parameter
+                        continue
+                    per[p].append(view)
                     self.folded[c][p] = view
                     if held is False:
                         unlocked += 1
             out[c] = per
-        return out, unlocked
+        return out, unlocked, stray
 
     def observe(self, op):
         c, w = self.cache_view()
-        out, unlocked = self.collect()
+        out, unlocked, stray = self.collect()
         seen = {cn: {p: self.folded[cn].get(p, ['-', '-', 0]) for p in self.params} for cn in self.conns}
-        return {'op': op, 'now': self.now(), 'c': c, 'w': w, 'o': out, 's': seen, 'unl': unlocked}
+        return {'op': op, 'now': self.now(), 'c': c, 'w': w, 'o': out, 's': seen, 'unl': unlocked, 'x': stray}
 
     # -- critical sections (linearisation points)
     def cs_begin(self):
@@ -914,7 +922,11 @@ NOLOCK_OPS = ('Tick', 'Activate', 'Deactivate', 'Drop', 'Untouched')     # need 
 def _replay_one(beh, shape, seedstr, forced=None, verbose=False):
     """replay one behaviour on one shape; returns None or the first mismatch"""
     init = beh[0]
-    w = World(init, shape)
+    try:
+        w = World(init, shape)
+    except WindowMismatch as e:
+        return [{'step': 0, 'op': init['op'], 'choices': {'how': sorted(set(shape['how'].values()))}, 'diff': ['window'],
+                 'expected': {'omit': init['omit']}, 'observed': str(e)}]
     params = w.params
     conns = sorted(w.conns)
     rnd = random.Random(seedstr)
@@ -932,6 +944,8 @@ def _replay_one(beh, shape, seedstr, forced=None, verbose=False):
             d.append('lock')          # the operation never entered updateLock
         if got['unl']:
             d.append('lock')
+        if got['x']:
+            d.append('out')       # something was sent that belongs to no exported parameter
         # the client-side replay of everything received must equal what the specification says the connection
         # holds (= the cache) for every parameter it listens to ('-' = does not listen)
         for c in conns:
@@ -1069,7 +1083,10 @@ def _random_trace(job):
     seed, n = job
     rnd = random.Random(f't:{seed}')
     init, shape = _random_init(rnd)
-    w = World(init, shape)
+    try:
+        w = World(init, shape)
+    except WindowMismatch as e:
+        return {'trace': [init], 'shape': shape, 'job': list(job), 'window': str(e)}
     first = dict(init)
     first['c'] = w.observe(init['op'])['c']
     tr = [first]
@@ -1102,7 +1119,11 @@ def _threaded_trace(job):
     # one module only: the events are ordered by the critical sections of ONE update lock (Trace_ParamCache_thr.cfg)
     init['mod2'] = []
     init['sub'] = {c: ['mod' if sc == 'mod2' else sc for sc in scs] for c, scs in init['sub'].items()}
-    w = World(init, shape)
+    try:
+        w = World(init, shape)
+    except WindowMismatch as e:
+        return {'trace': [init], 'shape': shape, 'job': list(job), 'window': str(e), 'blocked': {'accessLock': 0, 'updateLock': 0},
+                'sched': [], 'scripts': []}
     first = dict(init)
     first['c'] = w.observe(init['op'])['c']
     ctl = w.ctl
@@ -1210,8 +1231,9 @@ def _threaded_trace(job):
         th.join(5)
     if errors:
         # an operation raised/did not raise against expectation: make the trace fail at a synthetic event
-        w.events.append({'op': errors[0][0], 'now': w.now(), 'c': {}, 'w': {}, 'o': {}, 's': {}, 'unl': 0,
-                         'lk': False, 'err': str(errors[0][1])})
+        ev = w.observe(errors[0][0])
+        ev.update(lk=False, err=str(errors[0][1]), ch=errors[0][1] if isinstance(errors[0][1], dict) else {})
+        w.events.append(ev)
     return {'trace': [first] + w.events, 'shape': shape, 'scripts': scripts, 'plans': plans, 'sched': sched,
             'blocked': dict(ctl.blocked), 'job': list(job)}
 
@@ -1367,6 +1389,11 @@ def _judge(chk, recs, mode, result):
     verdicts, st, tr = result
     chk.states += st
     chk.transitions += tr
+    for r in recs:
+        if r.get('window'):
+            chk.violation({'module': 'ParamCache', 'mode': mode, 'action': 'Init', 'diff': 'window'},
+                          {'mode': mode, 'trace': r['trace'], 'shape': r['shape'], 'job': r['job'], 'observed': r['window'],
+                           'failed_at': 1})
     for i, v in verdicts.items():
         if i >= len(recs):
             continue            # corruption probes, judged by the caller
